@@ -779,6 +779,11 @@ def build_control(spec):
 
 def oracle_control(spec):
   ctl, data, shown = build_control(spec)
+  return control_hits(spec['which'], ctl, data, shown)
+
+def control_hits(which, ctl, data, shown):
+  """The oracle on one rendering of a control: (hits, content)."""
+  spec = dict(which=which)
   hits = []
   csnap = lambda: pg().format(ctl, compact=True, verbose=True, hide_default_values=False)   # (to_json pickles pg.Html objects, whose lazily cached content makes the pickle differ)
   jbefore = csnap()
@@ -834,6 +839,187 @@ def oracle_control(spec):
   return hits, out
 
 # ------------------------------------------------------------------------------------------------
+# histories: rendering, updating interactive controls (which emits JavaScript) and rendering again, in one process, over a
+# shared pool of hostile strings.  Every output of the sequence goes through the oracle; so does every update script.
+JS_UNESC = {'n': '\n', 'r': '\r', 't': '\t', '\\': '\\', '"': '"', "'": "'"}
+
+def js_escape_ref(s):
+  """What Html.escape(s, javascript_str=True) is documented to do (reference for the differential check)."""
+  return s.replace('\\', '\\\\').replace('"', '\\"').replace('\r', '\\r').replace('\n', '\\n').replace('\t', '\\t')
+
+def js_literals(code):
+  """Lexes the string literals of a script.  Returns ([(quote, decoded)], [problem])."""
+  lits, problems, i, n = [], [], 0, len(code)
+  while i < n:
+    c = code[i]
+    if code.startswith('//', i):
+      j = code.find('\n', i); i = n if j < 0 else j + 1
+    elif code.startswith('/*', i):
+      j = code.find('*/', i + 2); i = n if j < 0 else j + 2
+    elif c in '"\'':
+      j, buf = i + 1, []
+      while True:
+        if j >= n:
+          problems.append('unterminated-string-literal'); break
+        d = code[j]
+        if d == '\\':
+          e = code[j + 1] if j + 1 < n else ''
+          if e not in JS_UNESC:
+            problems.append('bad-escape-in-string-literal'); buf.append(e)
+          else:
+            buf.append(JS_UNESC[e])
+          j += 2; continue
+        if d in '\n\r':
+          problems.append('raw-newline-in-string-literal'); break
+        if d == c:
+          break
+        buf.append(d); j += 1
+      stmt = code[code.rfind(';', 0, i) + 1:i].rstrip()
+      markup = c == '"' and (('innerHTML' in stmt and stmt.endswith('=')) or ('insertAdjacentHTML' in stmt and stmt.endswith(',')))
+      lits.append(('markup' if markup else c, ''.join(buf))); i = j + 1
+    else:
+      i += 1
+  return lits, problems
+
+def script_hits(scripts, expect_texts, data, where):
+  """The oracle on update scripts: every string literal is closed on its line; each updated text is the value of a literal
+  (so it reaches textContent unchanged); every literal holding markup (innerHTML / insertAdjacentHTML) passes the HTML oracle."""
+  hits = []
+  all_lits = []
+  for code in scripts:
+    lits, problems = js_literals(code)
+    for pr in problems:
+      hits.append(('C20/update-script/%s/%s' % (where, pr), 'an update script has a broken string literal (%s): %s' % (pr, code[:200])))
+    all_lits += [v for _, v in lits]
+    for q, v in lits:
+      if q == 'markup':
+        try:
+          tree = strict_parse(v, apos_in_attr=True)
+        except Reject as r:
+          hits.append(('C20/update-script/%s/markup-malformed/%s' % (where, r.why), 'markup passed to innerHTML / insertAdjacentHTML is not well formed: %s ...%s...' % (r, v[max(0, r.pos - 50):r.pos + 30])))
+          continue
+        n = 0
+        for t in walk(tree):
+          if t[0] == 1: n += len(SENT_RE.findall(t[1]))
+          elif t[0] == 0:
+            n += sum(len(SENT_RE.findall(x)) for _, x in t[3])
+            if t[1] not in CTRL_TAGS or any(a not in CTRL_ATTRS for a, _ in t[3]):
+              hits.append(('C20/update-script/%s/markup-vocabulary/%s' % (where, t[1] if not SENT_RE.search(t[1]) else 'data'), 'markup passed to innerHTML contains element/attribute of the data: %s' % v[:200]))
+        if n != len(SENT_RE.findall(v)):
+          hits.append(('C20/update-script/%s/markup-sentinel-outside-text' % where, 'a datum sits outside text position in markup passed to innerHTML: %s' % v[:200]))
+  for t in expect_texts:
+    if t not in all_lits:
+      hits.append(('C20/update-script/%s/text-literal-differs' % where, 'the text %r given to update() is not the value of any string literal of the update scripts: %s' % (t, ' | '.join(scripts)[:300])))
+  return hits
+
+def escape_purity_hits(strings, rng, rounds=3):
+  """Html.escape is a function of (string, mode) only: whatever was escaped before, in whatever mode."""
+  from pyglove.core.views.html.base import Html
+  hits = []
+  calls = [(s, m) for s in strings for m in (False, True)] * rounds
+  rng.shuffle(calls)
+  for s, m in calls:
+    got = Html.escape(''.join(list(s)), javascript_str=m)     # an equal string built at run time
+    want = js_escape_ref(s) if m else html_lib.escape(s)
+    if got != want:
+      hits.append(('C20/escape-impure/%s' % ('javascript-mode' if m else 'html-mode'),
+                   'Html.escape(%r, javascript_str=%s) returns %r after other calls; a first call returns %r' % (s, m, got, want)))
+      break
+  return hits
+
+def fresh_escape(strings, mode):
+  """Html.escape of each string in a fresh interpreter that has escaped nothing else in the other mode."""
+  import subprocess, sys
+  from harness.lib.common import REPO, PY
+  code = ('import sys, json; sys.path.insert(0, %r)\n'
+          'from pyglove.core.views.html.base import Html\n'
+          'print(json.dumps([Html.escape(s, javascript_str=%r) for s in json.loads(sys.stdin.read())]))' % (REPO, mode))
+  p = subprocess.run([PY, '-W', 'ignore', '-c', code], input=json.dumps(strings), capture_output=True, text=True, timeout=300)
+  return json.loads(p.stdout.strip().split('\n')[-1])
+
+SEQ_STEPS = ['render-value', 'render-value', 'render-controls', 'update-label', 'update-tooltip', 'update-badge', 'update-group', 'update-progress', 'tabs-append', 'tabs-insert',
+             'escape-js', 'escape-html']
+
+def run_sequence(spec):
+  """spec: dict(kind='sequence', seed, steps=[...]|None).  Returns [(signature, what, step-index)]."""
+  from pyglove.core.views.html import controls as c
+  from pyglove.core.views.html.base import Html
+  p = pg()
+  r = random.Random(spec['seed'])
+  data = Data(random.Random(spec['seed'] + 1), hostile=True)
+  pool = [data.s('pool-string') for _ in range(r.randint(3, 6))]
+  pool.append(data.s('pool-string') + '"\n\\' + "'")       # quote, newline, backslash, apostrophe for the JavaScript side
+  pick = lambda: r.choice(pool)
+  label = c.Label(pick(), tooltip=c.Tooltip(pick()), interactive=True)
+  badge = c.Badge(pick(), interactive=True)
+  group = c.LabelGroup([c.Label(pick()), c.Badge(pick(), tooltip=c.Tooltip(pick(), interactive=True))], name=c.Label(pick()), interactive=True)
+  tooltip = c.Tooltip(pick(), for_element='.some-element', interactive=True)
+  tabs = c.TabControl([c.Tab(label=c.Label(pick()), content=p.Html('<span>constant</span>'), name='t0')])
+  bar = c.ProgressBar([c.SubProgress(name=pick()), c.SubProgress(name=pick())], total=None)
+  ctls = dict(label=label, badge=badge, group=group, tooltip=tooltip, tabs=tabs, progress=bar)
+  def label_texts(l):
+    return [l.text] + ([l.tooltip.content] if l.tooltip is not None and isinstance(l.tooltip.content, str) else [])
+  def shown(name):
+    if name == 'label': return label_texts(label)
+    if name == 'badge': return label_texts(badge)
+    if name == 'group': return sum([label_texts(l) for l in group.labels], []) + label_texts(group.name)
+    if name == 'tooltip': return [tooltip.content]
+    if name == 'tabs': return [t.label.text for t in tabs.tabs]
+    return []
+  hits = []
+  def add(new, i, step):
+    for sig, what in new:
+      hits.append((sig, 'step %d (%s): %s' % (i, step, what), i))
+  def render_controls(i, step):
+    for name, ctl in ctls.items():
+      hs, _ = control_hits(name if name != 'group' else 'label-group', ctl, data, shown(name))
+      add(hs, i, step + ':' + name)
+  render_controls(-1, 'first-render')        # updates only emit scripts for controls that have been rendered
+  steps = spec.get('steps') or [r.choice(SEQ_STEPS) for _ in range(r.randint(6, 12))]
+  for i, step in enumerate(steps):
+    scripts, expect = [], []
+    if step == 'render-value':
+      keys = r.sample(pool, min(len(pool), r.randint(1, 3)))
+      value = {k: r.choice([pick(), [pick(), {pick(): 1}], 1]) for k in keys}
+      if r.random() < 0.3:
+        value = object_class(pick(), 2)(f0=value, f1=pick())
+      kw = r.choice([{}, dict(key_style='label', collapse_level=None), dict(max_summary_len_for_str=0, enable_summary_for_str=False), dict(name=pick()),
+                     dict(enable_key_tooltip=False, enable_summary_tooltip=False, collapse_level=None)])
+      add(oracle(value, kw, data), i, step)
+    elif step == 'render-controls':
+      render_controls(i, step)
+    elif step == 'escape-js':
+      s_ = pick()
+      if Html.escape(s_, javascript_str=True) != js_escape_ref(s_):
+        add([('C20/escape-impure/javascript-mode', 'Html.escape(%r, javascript_str=True) = %r' % (s_, Html.escape(s_, javascript_str=True)))], i, step)
+    elif step == 'escape-html':
+      s_ = pick()
+      if Html.escape(s_) != html_lib.escape(s_):
+        add([('C20/escape-impure/html-mode', 'Html.escape(%r) = %r' % (s_, Html.escape(s_)))], i, step)
+    else:
+      with c.HtmlControl.track_scripts() as scripts:
+        if step == 'update-label':
+          t, tt = pick(), pick(); label.update(text=t, tooltip=tt); expect = [t, tt]
+        elif step == 'update-tooltip':
+          t = pick(); tooltip.update(t); expect = [t]
+        elif step == 'update-badge':
+          t = pick(); badge.update(text=t, add_class=['seen']); expect = [t]
+        elif step == 'update-group':
+          t, u = pick(), pick(); group.labels[0].update(text=t); group.labels[1].update(text=u, tooltip=t); group.name.update(text=u); expect = [t, u]
+        elif step == 'update-progress':
+          if bar.total is None: bar.update(total=10)
+          r.choice(bar.subprogresses).increment()
+          expect = ['\n'.join('%s: %s (%d/%d)' % (sp.name, '{:.1%}'.format(sp.value / bar.total), sp.value, bar.total) for sp in bar.subprogresses)]
+        elif step == 'tabs-append':
+          tabs.append(c.Tab(label=c.Label(pick()), content=p.Dict({'k': pick()}) if r.random() < 0.5 else c.Label(pick()), name='t%d' % len(tabs.tabs)))
+        elif step == 'tabs-insert':
+          tabs.insert(0, c.Tab(label=c.Label(pick()), content=c.Label(pick()), name='i%d' % len(tabs.tabs)))
+      add(script_hits(list(scripts), expect, data, step), i, step)
+  render_controls(len(steps), 'last-render')
+  add(escape_purity_hits(pool, r, rounds=1), len(steps), 'escape-purity')
+  return hits, steps
+
+# ------------------------------------------------------------------------------------------------
 LITERALS = [
     dict(kind='literal', value={'k<i>ZQ1X': 1}, kw={}),
     dict(kind='literal', value={'k<i>ZQ1X': 1}, kw={'key_style': 'label'}),
@@ -874,6 +1060,20 @@ def run(ctx):
   ctx.regen('Gen/HtmlStyles.v', html_styles.translate)
   ctx.build()
   rng = ctx.rng
+  # ---- histories in one process (render / update controls / render again; both orders), then everything else in the same process
+  nseq = nsteps = 0
+  forced = [['escape-js', 'render-value', 'render-controls', 'update-label', 'render-controls', 'render-value', 'render-value'],
+            ['render-value', 'escape-html', 'update-label', 'update-tooltip', 'update-badge', 'update-group', 'render-controls', 'render-value'],
+            ['update-label', 'update-tooltip', 'update-progress', 'tabs-append', 'tabs-insert', 'render-controls', 'render-value', 'render-value', 'update-label']]
+  for k in range(ctx.scale(60, 600)):
+    spec = dict(kind='sequence', seed=rng.getrandbits(32), steps=forced[k] if k < len(forced) else None)
+    shits, steps = run_sequence(spec)
+    for sig, what, i in shits:
+      ctx.hit(sig, what, dict(spec=dict(spec, steps=steps)))
+    nseq += 1; nsteps += len(steps)
+    for st in steps: ctx.hist('sequence_steps', st)
+    ctx.count(json.dumps(spec, sort_keys=True), nontrivial=True, kind='sequence')
+  ctx.extra['sequences'] = dict(sequences=nseq, steps=nsteps, note='every rendering and every update script of a sequence goes through the oracle')
   specs = list(LITERALS)
   rows = pairwise(OPTION_SPACE, random.Random(rng.getrandbits(32)))
   ctx.extra['pairwise_rows'] = len(rows)
@@ -1029,15 +1229,39 @@ def run(ctx):
       strs += [''.join(rng.choice(alpha) for _ in range(n)) for _ in range(ctx.scale(400, 4000))]
   for _ in range(ctx.scale(300, 3000)):
     strs.append(''.join(rng.choice(FRAGMENTS + ['ZQ1X', 'a']) for _ in range(rng.randint(1, 6))))
+  from pyglove.core.views.html.base import Html
+  order = list(range(len(strs))); rng.shuffle(order)
+  for i in order:          # a random half of the strings goes through the JavaScript mode first, the rest afterwards
+    if rng.random() < 0.5 and Html.escape(strs[i], javascript_str=True) != js_escape_ref(strs[i]):
+      ctx.hit('C20/escape-impure/javascript-mode', 'Html.escape(s, javascript_str=True) differs from the documented replacement chain', dict(spec=dict(kind='escape', s=strs[i])))
   for s in strs:
-    e = html_lib.escape(s)
+    e = Html.escape(s)     # pyglove's escape, with whatever history this process has; the model's escape and html.escape are the references
+    if e != html_lib.escape(s):
+      ctx.hit('C20/escape-impure/html-mode', 'Html.escape(%r) returns %r, html.escape returns %r' % (s, e, html_lib.escape(s)), dict(spec=dict(kind='escape', s=s)))
+    if Html.escape(s, javascript_str=True) != js_escape_ref(s):
+      ctx.hit('C20/escape-impure/javascript-mode', 'Html.escape(%r, javascript_str=True) returns %r after an HTML-mode call' % (s, Html.escape(s, javascript_str=True)), dict(spec=dict(kind='escape', s=s)))
     ok = not any(c in e for c in '<>"\'') and all(any(e.startswith(x, i + 1) for x in ENT) for i, c in enumerate(e) if c == '&')
     trs.append([2, trlib.enc(s)])
     impl_outs.append([2, trlib.enc(e), trlib.enc(strict_unescape(s)), 1 if ok else 0])
     descr.append(dict(string=s))
     ctx.count(('esc', s), nontrivial=any(c in s for c in '&<>"\''), kind='escape')
-    if html_lib.unescape(e) != s or strict_unescape(e) != s:
+    if html_lib.unescape(html_lib.escape(s)) != s or strict_unescape(html_lib.escape(s)) != s:
       ctx.hit('C20/escape-not-invertible', 'unescape(escape(s)) != s', dict(spec=dict(kind='escape', s=s)))
+  # ---- Html.escape is independent of the call history: compare with fresh interpreters that only ever used one mode
+  sample = [x for x in rng.sample(strs, min(len(strs), ctx.scale(300, 3000)))]
+  for hit in escape_purity_hits(sample, rng, rounds=2):
+    ctx.hit(hit[0], hit[1], dict(spec=dict(kind='escape', s='(history)')))
+  try:
+    fresh_html, fresh_js = fresh_escape(sample, False), fresh_escape(sample, True)
+    for s_, fh, fj in zip(sample, fresh_html, fresh_js):
+      if Html.escape(s_) != fh:
+        ctx.hit('C20/escape-impure/html-mode', 'Html.escape(%r) is %r in this process (after other calls) but %r in a fresh interpreter' % (s_, Html.escape(s_), fh), dict(spec=dict(kind='escape', s=s_)))
+      if Html.escape(s_, javascript_str=True) != fj:
+        ctx.hit('C20/escape-impure/javascript-mode', 'Html.escape(%r, javascript_str=True) is %r in this process but %r in a fresh interpreter' % (s_, Html.escape(s_, javascript_str=True), fj), dict(spec=dict(kind='escape', s=s_)))
+      ctx.count(('fresh', s_), nontrivial=True, kind='escape-vs-fresh-interpreter')
+    ctx.extra['escape_vs_fresh_interpreter'] = len(sample)
+  except Exception as e:
+    ctx.broken.append(dict(kind='harness', name='fresh interpreter', detail=repr(e)[:300]))
 
   model_outs = ctx.model_run(trs)
   lookup = {id(t): d for t, d in zip(trs, descr)}
@@ -1048,8 +1272,17 @@ def run(ctx):
 def replay(ctx, rp):
   spec = rp['case']['spec']
   if spec.get('kind') == 'escape':
+    from pyglove.core.views.html.base import Html
     s = spec['s']
-    return html_lib.unescape(html_lib.escape(s)) == s
+    if s == '(history)':
+      return not escape_purity_hits(['a<b', '"q"', "x'&y"], random.Random(1), rounds=3)
+    js = Html.escape(s, javascript_str=True); h = Html.escape(s); js2 = Html.escape(s, javascript_str=True)
+    return html_lib.unescape(html_lib.escape(s)) == s and h == html_lib.escape(s) and js == js2 == js_escape_ref(s)
+  if spec.get('kind') == 'sequence':
+    hits, _ = run_sequence(spec)
+    for h in hits:
+      print('  still fails:', h[:2])
+    return not hits
   if spec.get('kind') == 'exploding':
     t0 = tls_state()
     try:
